@@ -1,5 +1,5 @@
 //! Kani harnesses (real code, path dependencies on /repo). `//@` lines are read by bin/vcheck.
-#![allow(unused, clippy::all)]
+#![allow(unused, clippy::all, static_mut_refs)]
 #![cfg_attr(kani, feature(core_io_borrowed_buf, read_buf))]
 extern crate alloc;
 
@@ -7,3 +7,5 @@ extern crate alloc;
 pub mod stubs;
 #[cfg(kani)]
 mod c19;
+#[cfg(kani)]
+mod wal;
